@@ -456,7 +456,7 @@ def gen_respace():
 
 
 N = {"quick": (1500, 1200, 900, 2500), "thorough": (20000, 15000, 12000, 30000)}
-BUDGET_S = {"quick": 60, "thorough": 1500}
+BUDGET_S = {"quick": 90, "thorough": 1500}
 
 
 def campaigns(tier, shard=0, nshards=1):
